@@ -173,6 +173,12 @@ def gen(rng, tier):
         cases.append("P %d %d %d %d %d %d" % (rng.getrandbits(30), rng.randint(1, 3), rng.randint(1, 3),
                                               rng.randint(0, 2), rng.randint(2, 4), rng.randint(2, 5)))
     stats["p_concurrent"] = np_
+    # storms: many issuers, long op lists, a longer list to scan (the check-then-insert of a rank must be one step)
+    nst = 16 if tier == "quick" else 300
+    for _ in range(nst):
+        cases.append("P %d %d %d %d %d %d" % (rng.getrandbits(30), rng.choice([4, 8]), rng.choice([0, 2, 4]),
+                                              rng.choice([4, 8]), 32, rng.choice([3, 6, 12])))
+    stats["p_storm"] = nst
     return cases, stats
 
 
